@@ -17,7 +17,9 @@ from sqlcase import RL, ms, DISK_LAYOUTS
 
 POOLS = {
     "INT": ["0", "1", "-1", "2147483647", "-2147483648", "7", "7", "65536"],
-    "BIGINT": ["0", "1", "-1", "9223372036854775807", "-9223372036854775807", "7", "1099511627776"],
+    # (neighbours above 2^53: distinct BIGINTs that a detour through DOUBLE would identify)
+    "BIGINT": ["0", "1", "-1", "9223372036854775807", "-9223372036854775807", "7", "1099511627776",
+               "9007199254740992", "9007199254740993", "9223372036854775806", "-9007199254740993", "-9007199254740992"],
     "SMALLINT": ["0", "1", "-1", "32767", "-32768", "7", "7"],
     "DOUBLE": ["0.0", "1.5", "-1.5", "100.0", "0.1", "123456789012345.5", "0.000001", "1.5"],
     "DECIMAL(12,3)": ["0", "1.5", "1.50", "-2.25", "0.001", "10", "9.999", "1.500"],
@@ -62,6 +64,7 @@ def sql_case(args):
             for name, sql in [("order", "select a from t order by a"), ("desc", "select a from t order by a desc"),
                               ("lt", "select x.a, y.a from t x, t y where x.a < y.a"),
                               ("eq", "select x.a, y.a from t x join t y on x.a = y.a"),
+                              ("in", "select a from t where a in (select a from t)"),
                               ("group", "select a, count(*) from t group by a"), ("distinct", "select distinct a from t"),
                               ("minmax", "select min(a), max(a) from t")]:
                 r = rl.sql(sql)
@@ -100,6 +103,8 @@ def sql_case(args):
                 want = sorted((a, b) for a in nn for b in nn if a == b)
                 if sorted(q["eq"]) != want:
                     res["violations"].append(dict(signature=f"join-equality-vs-identity:{typ}", what=f"self equi-join pairs {sorted(set(q['eq']))[:6]} vs equal cells {sorted(set(want))[:6]} [{tag}]"))
+            if q.get("in") is not None and sorted(x[0] for x in q["in"]) != sorted(nn):
+                res["violations"].append(dict(signature=f"in-subquery-vs-identity:{typ}", what=f"a IN (select a) returned {sorted(x[0] for x in q['in'])[:8]} for non-NULL values {sorted(nn)[:8]} [{tag}]"))
             if q["group"] is not None:
                 want = sorted(((a, seq.count(a)) for a in set(seq)), key=str)
                 if sorted(q["group"], key=str) != want:
